@@ -3,7 +3,8 @@ CONSTANTS
   Space = "pos"
   Shapes <- ShapesOf
   FmtChoices <- Fmt1
-  Q <- QAB
+  DCtx <- DCAB
+  Prec = "most_common"
   CurSeq <- CS3
   InvNull = "skip"
   Mut = "noquant"
